@@ -250,7 +250,7 @@ PROPERTIES = {
     'scope': 'kernels only: Position order / Location contains / union algebra over all u32 values; the lexer\'s tracked '
              'line/column equals the position of the consumed byte offset for whitespace, strings, line and block comments; '
              'the parser\'s `last_location` is the location of the last consumed token and looking ahead does not move it (peek / consume); '
-             'the ranges built by parse_type_parameter and parse_identifier_annot enclose their parts; a member access `o.m<T>` encloses its object and its type arguments (the member name when there are none) and a call encloses its callee and argument list (parse_function_call_or_field_access_with_start); the node built by each of the six binary-operator productions (|| && comparisons + - * / % ::) has the two parsed operands, the operator read, and a range enclosing both operands; `!e` and `-e` run from the operator token over the argument (parse_unary_expression); an if-else runs from its keyword over the else branch actually parsed, block or nested if-else (parse_if_else); a match case encloses its pattern and ends at its body or at its comma (parse_pattern_to_expression); a match expression runs from its keyword to the token consumed as its closing brace (parse_match); an import line runs from its keyword to its semicolon, or to the end of the module name when there is none (parse_module); a parenthesized expression list runs from its opening to the token consumed as its closing parenthesis (parse_parenthesized_expression_list_with_start); a function type annotation runs from its opening parenthesis over its return type, and annotation::T::location (verbatim, real enum) is the range stored in the variant; explicit type arguments run from `<` to the token consumed as `>` (parse_optional_type_arguments), a type-parameter list from `<` to `>` (parse_type_parameters); a class / interface declaration and its member block end at the same closing brace (parse_class, parse_interface); the other union call sites of the parser are not covered',
+             'the ranges built by parse_type_parameter and parse_identifier_annot enclose their parts; a member access `o.m<T>` encloses its object and its type arguments (the member name when there are none) and a call encloses its callee and argument list (parse_function_call_or_field_access_with_start); the node built by each of the six binary-operator productions (|| && comparisons + - * / % ::) has the two parsed operands, the operator read, and a range enclosing both operands; `!e` and `-e` run from the operator token over the argument (parse_unary_expression); an if-else runs from its keyword over the else branch actually parsed, block or nested if-else (parse_if_else); a match case encloses its pattern and ends at its body or at its comma (parse_pattern_to_expression); a match expression runs from its keyword to the token consumed as its closing brace (parse_match); an import line runs from its keyword to its semicolon, or to the end of the module name when there is none (parse_module); a parenthesized expression list runs from its opening to the token consumed as its closing parenthesis (parse_parenthesized_expression_list_with_start); a function type annotation runs from its opening parenthesis over its return type, and annotation::T::location (verbatim, real enum) is the range stored in the variant; explicit type arguments run from `<` to the token consumed as `>` (parse_optional_type_arguments), a type-parameter list from `<` to `>` (parse_type_parameters); a class / interface declaration and its member block end at the same closing brace (parse_class, parse_interface); a member definition's range is extended over its body (parse_class_member_definition, verbatim); the other union call sites of the parser are not covered',
   },
   'C17': {
     'verus': ['heap'],
@@ -355,7 +355,7 @@ STANDING_ASSUMPTIONS = {
                'a module\'s imports depend only on its own parsed form'],
   'prodloc': ['Verus/Z3; ranges are abstract with the nesting order and the union contract of Kani unit loc (all tokens of one parser share their module); '
               'peek / consume / parse_upper_id_with_comments / parse_optional_type_arguments / parse_parenthesized_expression_list / CommentStore::create_comment_reference are opaque; '
-              'the member-access and call nodes are R14 blocks of parse_function_call_or_field_access_with_start, the binary nodes R14 blocks of the six parse_*_with_start operator productions, the two prefix-operator nodes R14 blocks of parse_unary_expression, the end of parse_if_else (else branch, range, node) an R14 block with parse_block / the recursive parse_if_else opaque and the condition only carried; parse_pattern_to_expression verbatim with patterns opaque (only their range is read), assert_and_consume_operator / parse_matching_pattern / parse_expression_with_additional_preceding_comments opaque, NO_COMMENT_REFERENCE a stub (R3); the node-building end of parse_match the import-node block of parse_module, the end of parse_parenthesized_expression_list_with_start and the function-type end of parse_annotation_with_additional_comments R14 blocks (parse_annotation opaque), the end of parse_optional_type_arguments an R14 block over the real annotation::TypeArguments (no longer reduced to its range), the end of parse_type_parameters an R14 block with the registration of the parameter names (iterator adapters, R3) and fix_tparams_with_generic_annot opaque, the ends of parse_class / parse_interface R14 blocks over the real InterfaceDeclarationCommon / InterfaceMembersCommon / ExtendsOrImplementsNodes (generic in the type definition and the member type) (the surrounding loops, the reading of operator / member name and the parsing of the right operand are outside); '
+              'the member-access and call nodes are R14 blocks of parse_function_call_or_field_access_with_start, the binary nodes R14 blocks of the six parse_*_with_start operator productions, the two prefix-operator nodes R14 blocks of parse_unary_expression, the end of parse_if_else (else branch, range, node) an R14 block with parse_block / the recursive parse_if_else opaque and the condition only carried; parse_pattern_to_expression verbatim with patterns opaque (only their range is read), assert_and_consume_operator / parse_matching_pattern / parse_expression_with_additional_preceding_comments opaque, NO_COMMENT_REFERENCE a stub (R3); the node-building end of parse_match the import-node block of parse_module, the end of parse_parenthesized_expression_list_with_start and the function-type end of parse_annotation_with_additional_comments R14 blocks (parse_annotation opaque), the end of parse_optional_type_arguments an R14 block over the real annotation::TypeArguments (no longer reduced to its range), the end of parse_type_parameters an R14 block with the registration of the parameter names (iterator adapters, R3) and fix_tparams_with_generic_annot opaque, the ends of parse_class / parse_interface R14 blocks over the real InterfaceDeclarationCommon / InterfaceMembersCommon / ExtendsOrImplementsNodes (generic in the type definition and the member type); parse_class_member_definition verbatim with ClassMemberDeclaration projected to its range (R6) and parse_class_member_declaration_common opaque (the surrounding loops, the reading of operator / member name and the parsing of the right operand are outside); '
               'expr::E reduced to FieldAccess, Call, Binary, Unary and a rest with only its common part (R6), E::loc = the range in the common part; '
               'with explicit type arguments the member NAME is enclosed only because tokens are consumed in increasing position order (not stated)'],
   'parsetok': ['Verus/Z3; the parser is reduced to the fields peek / consume touch, TokenContent to the comment variants, EndOfFile and an opaque rest (R6); '
